@@ -13,6 +13,7 @@ pub fn run_check(prop: &str, _args: &[String]) -> i32 {
         "C04" | "C05" => crash_family(prop),
         "C17" => fault_check(),
         "C10" => cow_check(),
+        "C08" => alloc_check(),
         _ => {
             eprintln!("unknown property {}", prop);
             2
@@ -240,6 +241,26 @@ fn seq_family(prop: &str) -> i32 {
                     scen.push(j);
                 }
             }
+        }
+    }
+    // fragmented host space: multi-cluster allocations that cross refblock slices and must retry
+    {
+        let gf = crate::extra::GF;
+        let img = crate::extra::frag_image();
+        let mut alpha: Vec<Op> = alloc_alphabet(&gf).into_iter().filter(|o| !matches!(o, Op::Alloc(_) | Op::Free(_))).collect();
+        alpha.push(Op::Write { off: 120 * gf.cs(), len: (2 * gf.cs()) as usize, tag: 4 });
+        for cfgn in ["small"] {
+            qcow2_rs::verif::set_order_salt(0);
+            let sc = SeqScenario::new(img.clone(), cfg_of(&gf, cfgn), gf.cfg_alt(), cfgn, alpha.clone(), oracles.clone());
+            let lim = BfsLimits { depth: if thorough { 5 } else { 3 }, max_states: 3_000_000, deadline: deadline_in(if thorough { 200 } else { 6 }) };
+            let st = bfs(&sc, &lim, &mut viol);
+            states += st.states;
+            trans += st.transitions;
+            outcomes += st.distinct_outcomes;
+            if st.capped || st.depth_completed < st.depth_target {
+                all_complete = false;
+            }
+            scen.push(stats_json(&format!("{} salt0", crate::hist::Scenario::name(&sc)), &st));
         }
     }
     run.add_all(viol);
@@ -806,4 +827,148 @@ pub fn cow_check() -> i32 {
         "scenarios": scen,
     });
     run.finish(cov, vec!["builder images (SpecKit) are valid qcow2 (self-test + C09)".into(), "as C01".into()])
+}
+
+pub fn debug_frag() {
+    let img = crate::extra::frag_image();
+    let rep = crate::spec::check_image(&img.files[0]);
+    println!("frag image: {} bytes, problems {:?}", img.files[0].len(), rep.first_problem(true));
+    let mut used: Vec<u64> = rep.refs.keys().copied().collect();
+    used.sort();
+    println!("used host clusters: {:?}", used);
+}
+
+
+// =====================================================================
+// C08: allocator / ownership
+// =====================================================================
+pub fn alloc_alphabet(g: &Geo) -> Vec<Op> {
+    let cs = g.cs();
+    let bs = g.bs();
+    let rb_slice_entries = ((8usize << g.rb_slice_bits) >> g.order) as usize;
+    let rb_entries = ((8usize << g.cluster_bits) >> g.order) as usize;
+    let mut v = vec![Op::Alloc(1), Op::Alloc(2), Op::Alloc(5)];
+    if rb_slice_entries <= 256 {
+        v.push(Op::Alloc(rb_slice_entries));
+        v.push(Op::Alloc(rb_slice_entries + 1));
+    }
+    if rb_entries <= 512 && rb_entries != rb_slice_entries {
+        v.push(Op::Alloc(rb_entries));
+    }
+    v.extend([
+        Op::Free(0),
+        Op::Free(1),
+        // guest operations in fresh and in populated ranges
+        Op::Write { off: 100 * cs, len: (4 * cs) as usize, tag: 1 },
+        Op::Write { off: 110 * cs, len: bs as usize, tag: 2 },
+        Op::Write { off: 0, len: (2 * cs) as usize, tag: 3 },
+        Op::Discard { off: 0, len: 2 * cs },
+        Op::Discard { off: 100 * cs, len: 4 * cs },
+        Op::Flush,
+        Op::Reopen,
+    ]);
+    v
+}
+
+pub fn alloc_check() -> i32 {
+    use crate::allocsc::AllocScenario;
+    let run = Run::new("C08", "model_checking");
+    let thorough = run.thorough();
+    qcow2_rs::verif::set_order_salt(0);
+    let gf = crate::extra::GF;
+    let mut plans: Vec<(Geo, ImageSet, &str, usize, u64)> = vec![
+        (gf.clone(), crate::extra::frag_image(), "small", if thorough { 4 } else { 3 }, if thorough { 300 } else { 12 }),
+        (gf.clone(), images::lib_formatted(gf.cluster_bits, gf.order, gf.vsize()), "small", if thorough { 4 } else { 3 }, if thorough { 300 } else { 8 }),
+        (images::G9, images::lib_formatted(9, 6, images::G9.vsize()), "small", if thorough { 4 } else { 2 }, if thorough { 200 } else { 4 }),
+    ];
+    if thorough {
+        plans.push((gf.clone(), crate::extra::frag_image(), "ample", 4, 300));
+        plans.push((images::G10, images::initial_images(&images::G10, &["data"]).remove(0), "small", 4, 200));
+        plans.push((images::G12, images::lib_formatted(12, 2, images::G12.vsize()), "small", 3, 100));
+    }
+    let mut viol = vec![];
+    let mut scen = vec![];
+    let (mut states, mut trans, mut outcomes) = (0u64, 0u64, 0u64);
+    let mut samples = vec![];
+    let mut complete = true;
+    for (g, img, cfgn, depth, secs) in plans {
+        let sc = AllocScenario { img, cfg: cfg_of(&g, cfgn), cfg_name: cfgn.into(), alphabet: alloc_alphabet(&g), prop: "C08".into() };
+        let st = bfs(&sc, &BfsLimits { depth, max_states: 2_000_000, deadline: deadline_in(secs) }, &mut viol);
+        states += st.states;
+        trans += st.transitions;
+        outcomes += st.distinct_outcomes;
+        if st.capped || st.depth_completed < st.depth_target {
+            complete = false;
+        }
+        if let Some(s) = st.samples.get(2).or(st.samples.first()) {
+            samples.push(format!("{}: {}", crate::hist::Scenario::name(&sc), s));
+        }
+        scen.push(stats_json(&crate::hist::Scenario::name(&sc), &st));
+    }
+    run.add_all(viol);
+    // ---- concurrent allocators / writers / discarders ----
+    let mk = |name: &str, img: ImageSet, g: &Geo, setup: Vec<Op>, tasks: Vec<Vec<Op>>| SchedScenario {
+        name: name.into(), img, cfg: cfg_of(g, "small"), cfg_name: "small".into(), setup, tasks, fused: true,
+    };
+    let cs = gf.cs();
+    let w = |off: u64, len: u64, tag: u32| Op::Write { off, len: len as usize, tag };
+    let libf = images::lib_formatted(gf.cluster_bits, gf.order, gf.vsize());
+    let mut sscn = vec![
+        mk("alloc1||alloc1", libf.clone(), &gf, vec![], vec![vec![Op::Alloc(1)], vec![Op::Alloc(1)]]),
+        mk("alloc2||alloc1||alloc1", libf.clone(), &gf, vec![], vec![vec![Op::Alloc(2)], vec![Op::Alloc(1)], vec![Op::Alloc(1)]]),
+        mk("alloc5-frag||alloc1", crate::extra::frag_image(), &gf, vec![], vec![vec![Op::Alloc(5)], vec![Op::Alloc(1)]]),
+        mk("alloc5-frag||write", crate::extra::frag_image(), &gf, vec![], vec![vec![Op::Alloc(5)], vec![w(110 * cs, cs, 0x11)]]),
+        mk("alloc1||discard", crate::extra::frag_image(), &gf, vec![], vec![vec![Op::Alloc(2)], vec![Op::Discard { off: 0, len: 2 * cs }], vec![Op::Alloc(1)]]),
+        mk("write||write||discard", crate::extra::frag_image(), &gf, vec![], vec![vec![w(100 * cs, 4 * cs, 0x11)], vec![w(110 * cs, cs, 0x12)], vec![Op::Discard { off: 0, len: 2 * cs }]]),
+        mk("alloc65||alloc1", libf.clone(), &gf, vec![], vec![vec![Op::Alloc(65)], vec![Op::Alloc(1)]]),
+    ];
+    if !thorough {
+        sscn.truncate(5);
+    }
+    let (b, per, secs) = if thorough { (3, 300_000, 600) } else { (2, 5_000, 20) };
+    let sum = match sched_explore(&run, &["C08"], &sscn, b, per, secs) {
+        Ok(s) => s,
+        Err(e) => {
+            eprintln!("machinery error: {}", e);
+            return 2;
+        }
+    };
+    // ---- reuse: write/discard cycles over a fixed working set do not grow the host file ----
+    let mut reuse = vec![];
+    for (g, cfgn) in [(images::G9, "small"), (images::G10, "small"), (gf.clone(), "small"), (images::G12, "small")] {
+        for (wo, wl) in [(0u64, g.cs()), (g.cs() - g.bs(), 2 * g.bs()), (0, 3 * g.cs()), (g.tb() - g.cs(), 2 * g.cs())] {
+            let img = images::lib_formatted(g.cluster_bits, g.order, g.vsize());
+            let mut world = World::new(img.files.clone(), img.rd.clone(), &cfg_of(&g, cfgn), &cfg_of(&g, cfgn)).unwrap();
+            let mut lens = vec![];
+            for cyc in 0..16u32 {
+                let r1 = world.step(&Op::Write { off: wo, len: wl as usize, tag: 1 + cyc });
+                let r2 = world.step(&Op::Discard { off: wo / g.cs() * g.cs(), len: (wo + wl + g.cs() - 1) / g.cs() * g.cs() - wo / g.cs() * g.cs() });
+                let r3 = if cyc % 3 == 2 { world.step(&Op::Flush) } else { r2.clone() };
+                if !(r1.ok && r2.ok && r3.ok) {
+                    run.add(Violation { prop: "C08".into(), class: "reuse:op-failed".into(), detail: format!("cycle {} on {}: {} {} {}", cyc, img.name, r1.short(), r2.short(), r3.short()), replay: json!({"engine":"reuse","image":img.name,"write":[wo,wl]}) });
+                    break;
+                }
+                lens.push(world.sim.borrow().files[0].len());
+            }
+            if lens.len() == 16 && lens[15] != lens[1] {
+                run.add(Violation {
+                    prop: "C08".into(),
+                    class: "reuse:host-file-grows".into(),
+                    detail: format!("write/discard cycles of ({:#x},{}) on {}: host file length per cycle {:?}", wo, wl, img.name, lens),
+                    replay: json!({"engine":"reuse","image":img.name,"write":[wo,wl]}),
+                });
+            }
+            reuse.push(json!({"image": img.name, "write": [wo, wl], "cycles": lens.len(), "host_len_cycle2": lens.get(1), "host_len_cycle16": lens.get(15)}));
+        }
+    }
+    let cov = json!({
+        "states": states + sum.steps, "transitions": trans + sum.steps, "traces_validated_against_impl": trans + sum.execs,
+        "samples": samples, "evaluations": trans + sum.execs, "distinct_nontrivial": outcomes,
+        "rule": "explicit-state BFS over histories of allocate(n)/free(run)/write/discard/flush/reopen through the allocator hook, from fragmented, empty and populated images; after every transition the state is settled (flush) and the independent checker derives owners and stored refcounts: handed-out clusters must have been free, held runs counted exactly once, nothing else leaked, nothing under-counted or doubly referenced; plus schedule exploration of concurrent allocators and write/discard reuse cycles",
+        "exhaustive": complete,
+        "scenarios": scen,
+        "concurrent_part": {"scenarios": sum.total, "executions": sum.execs, "min_deviation_bound_completed": sum.min_bound, "deviation_bound_target": b, "scenarios_with_several_outcomes": sum.multi_outcome, "samples": sum.samples},
+        "reuse_cycles": reuse,
+    });
+    run.finish(cov, vec!["hook H3 forwards allocate_clusters/free_clusters unchanged".into(), "ownership is derived by the SpecKit checker from the flushed file".into()])
 }
